@@ -2821,6 +2821,14 @@ impl<I: SignedInteger> FromBitStreamUsing for Residuals<I> {
             let partition_order = reader.read::<4, u32>()?;
             let partition_count = 1 << partition_order;
 
+            // the block must divide evenly into partitions
+            // and each partition must be larger than the predictor order
+            if !block_size.is_multiple_of(partition_count)
+                || block_size / partition_count <= predictor_order
+            {
+                return Err(Error::InvalidPartitionOrder);
+            }
+
             (0..partition_count)
                 .map(|p| {
                     reader.parse_using(
